@@ -372,6 +372,55 @@ def rule_r45(chk, facts):
                    'Sums written by %s' % show(node))
 
 
+def rule_r8(chk, facts):
+    chk.rule('C07-R8', 'short-header records carry no granularity: the tools take it from Granularity(header id, CODE) in '
+             'toolutils.c (doc/file-formats.md, doc/modifying-as.md).  For every code generator whose SwitchTo_* assigns a '
+             'constant HeaderID and a constant Grans[SegCode], that table returns the same value (constant propagation '
+             'through the switch)', min_instances=40)
+    from . import prove
+    from .absint import Eval
+    A = facts.program('asl')
+    T = facts.program('plist')
+    gf = facts.func('toolutils.c', 'Granularity')
+    segcode = gf.unit.enums.get('SegCode')
+    if segcode is None:
+        raise AnalysisBroken('SegCode enumerator not found')
+    segcode = int(segcode)
+    ev = Eval(T)
+    n = 0
+    for (f, how, ln, node, b, i) in A.write_index().get('HeaderID', []):
+        if how != '=':
+            continue
+        hs = prove.cvals(A, f, node[3])
+        if not hs:
+            continue
+        gr = set()
+        for b2, i2, l2, m in f.nodes():
+            if is_assign(m) and m[1] == '=':
+                t = strip(m[2])
+                if t[0] == 'i' and strip(t[1]) == ('g', 'Grans') and const_val(t[2]) == segcode:
+                    v = prove.cvals(A, f, m[3])
+                    gr |= set(v) if v else {None}
+        if not gr or None in gr or len(gr) != 1:
+            continue
+        g = next(iter(gr))
+        for h in sorted(hs):
+            if h >= 0x80:
+                continue
+            n += 1
+            tv = ev.call(gf, [h, segcode])
+            if tv is None:
+                raise AnalysisBroken('Granularity(%#x, CODE) not determined by constant propagation' % h)
+            ok = tv == g
+            chk.ob('C07-R8', 'toolutils.c:Granularity:%#04x' % h, ok, f.loc(ln),
+                   '%s assembles with %d bytes per address, tools agree' % (f.name, g) if ok else
+                   '%s assembles the code segment with %d bytes per address, Granularity(%#x, CODE) returns %d: PLIST '
+                   'reports a wrong end address for short-header records of this family, PBIND turns a long header with '
+                   'granularity %d into a short one' % (f.name, g, h, tv, tv))
+    if n < 40:
+        raise AnalysisBroken('only %d (header id, granularity) pairs determined' % n)
+
+
 def run(chk, facts, info):
     rule_r1(chk, facts)
     rule_r2(chk, facts)
@@ -380,6 +429,7 @@ def run(chk, facts, info):
     format_rule(chk, facts, 'C07-R3', ['plist.c', 'pbind.c', 'alink.c'])
     rule_r45(chk, facts)
     rule_r6(chk, facts)
+    rule_r8(chk, facts)
     chk.rule('C07-R7', 'in plist, pbind and alink (and the shared tool library), every ChkIO() call stands under a '
              'failure test of the operation it checks or is preceded on every path by errno = 0', min_instances=40)
     n7 = errno_rule(chk, facts, 'C07-R7', ['plist', 'pbind', 'alink'])
